@@ -52,7 +52,7 @@ def gen_values(rnd, key_is_color):
         d = rnd.choice([1, 2, 3, 3, 6, 6])
         digits = ''.join(rnd.choice('0123456789abcdef') for _ in range(d))
         if d == 6 and rnd.random() < .4: digits = ''.join(ch * 2 for ch in digits[:3])
-        alpha = rnd.choice([None, None, None, '.5', '.25', '.1', '.75', '.9'])
+        alpha = rnd.choice([None, None, None, None, '.5', '.25', '.1', '.75', '.9', '.0', '.00', '.05'])
         return '#' + digits + (alpha or ''), [('color', digits, alpha)]
     n = rnd.choice([1, 1, 2, 3, 4])
     s = ''
@@ -102,6 +102,7 @@ def render_color(digits, alpha, opt):
     r, g, b = int(h[0:2], 16), int(h[2:4], 16), int(h[4:6], 16)
     if alpha is not None:
         a = F(alpha if not alpha.startswith('.') else '0' + alpha)
+        if a == 0 and r == g == b == 0: return 'transparent'         # rgba(0, 0, 0, 0): the same colour under its keyword
         if a != 1: return 'rgba(%d, %d, %d, %s)' % (r, g, b, ('%.4f' % float(a)).rstrip('0').rstrip('.'))
     if opt.get('stylesheet.shortHex', True) and all(x % 17 == 0 for x in (r, g, b)): return '#' + h[0] + h[2] + h[4]
     return '#' + h
